@@ -21,7 +21,13 @@ import (
 	"verif/harness/gen"
 )
 
-const VerifDir = "/verif"
+// VerifDir is the verification root (the directory of the driver script).
+var VerifDir = func() string {
+	if d := os.Getenv("VERIF_DIR"); d != "" {
+		return d
+	}
+	return "/verif"
+}()
 
 // Job is one decode request against a generated type (E-run).
 type Job struct {
@@ -124,6 +130,20 @@ type Ctx struct {
 // the search (VERIF_SURVEY=1); never used by registered commands.
 func (c *Ctx) Survey() bool { return os.Getenv("VERIF_SURVEY") != "" }
 
+// SurveyReplay keeps the smallest replay seen per signature under
+// $VERIF_OUT/survey (development aid).
+func (c *Ctx) SurveyReplay(key string, r *Replay) {
+	r.Property = c.ID
+	b, _ := json.MarshalIndent(r, "", " ")
+	dir := filepath.Join(c.OutDir, "survey")
+	_ = os.MkdirAll(dir, 0o755)
+	path := filepath.Join(dir, c.ID+"-"+Hash(key)[:8]+".json")
+	if st, err := os.Stat(path); err == nil && st.Size() <= int64(len(b)) {
+		return
+	}
+	_ = os.WriteFile(path, b, 0o644)
+}
+
 // SurveyAdd tallies a failure signature with one example.
 func (c *Ctx) SurveyAdd(key, example string) {
 	c.mu.Lock()
@@ -199,6 +219,13 @@ func (c *Ctx) Findings() []Finding { return c.findings }
 func (c *Ctx) Avoid(sw string) bool {
 	if os.Getenv("VERIF_NO_AVOID") != "" {
 		return false
+	}
+	if dev := os.Getenv("VERIF_AVOID"); dev != "" { // development aid only
+		for _, a := range strings.Split(dev, ",") {
+			if a == sw || a == "all" {
+				return true
+			}
+		}
 	}
 	for _, f := range c.findings {
 		if f.Status != "open" {
